@@ -133,7 +133,15 @@ def run_history(spec, perturb=None, hooks=None):
                 tgt = torch.tensor(np.stack([m.real, m.imag]), dtype=torch.double)
             else:
                 tgt = torch.tensor(np.stack([tz.real, tz.imag]), dtype=torch.double)
+            # the target also as a dictionary of pre-rotated states over five bases (sums over several bases must not depend on
+            # the order a hash-salted container happens to iterate in)
+            blist = ["X" * nv, "Z" * nv, "Y" * nv, "XY" + "Z" * (nv - 2), "ZX" + "Y" * (nv - 2)]
+            if kind == "mixed":
+                tdict = {b_: unitaries.rotate_rho(st, b_, sp, rho=tgt) for b_ in blist}
+            else:
+                tdict = {b_: unitaries.rotate_psi(st, b_, sp, psi=tgt) for b_ in blist}
             vals = [float(ts.fidelity(st, tgt, space=sp)), float(ts.KL(st, tgt, space=sp, bases=["X" * nv, "Z" * nv])),
+                    float(ts.KL(st, tdict, space=sp, bases=blist)),
                     float(ts.NLL(st, torch.tensor(rows, dtype=torch.double), space=sp, sample_bases=bases))]
             d = digest(vals)
         elif op == "rotate":
